@@ -123,7 +123,7 @@ def minimise_and_write(engine, viol, known_entries, budget_n):
 
     def test(cand):
         try:
-            r = runner.execute_scenario(engine, cand)
+            r = runner.execute_isolated(engine, cand)
         except Exception:
             return False
         if r.verdict != "VIOLATION" or r.vclass != vclass:
@@ -140,7 +140,12 @@ def minimise_and_write(engine, viol, known_entries, budget_n):
             small = scn
         if not test(small):
             small = scn
-    res = runner.execute_scenario(engine, small)
+    res = runner.execute_isolated(engine, small)
+    if res.verdict != "VIOLATION":
+        # seen in a worker, but not when the scenario is executed on its own: state leaked from an earlier run of
+        # that worker into this one (the code under test keeps module-level state?) - not a replayable violation
+        raise RuntimeError("violation of class %s (run %d) does not reproduce when its scenario is executed in isolation"
+                           % (vclass, viol["k"]))
     rs = run_seed(engine.PROPERTY, _seed(), viol["k"])
     d = os.path.join(env.VERIF_DIR, "replays", engine.PROPERTY)
     os.makedirs(d, exist_ok=True)
@@ -161,7 +166,8 @@ def minimise_and_write(engine, viol, known_entries, budget_n):
     ok = False
     for line in p.stdout.splitlines():
         if line.startswith("REPLAY "):
-            ok = ("class=%s " % res.vclass) in line + " " and ("digest=%s" % res.digest) in line
+            ok = ("verdict=VIOLATION " in line and ("class=%s " % res.vclass) in line + " "
+                  and ("digest=%s" % res.digest) in line)
     return path, ok, res
 
 
@@ -226,11 +232,29 @@ def main(argv=None):
     for v in new:
         classes.setdefault(v["vclass"], []).append(v)
     for vclass in sorted(classes)[:3]:
-        v = classes[vclass][0]
-        try:
-            path, ok, res = minimise_and_write(engine, v, known_entries, tiercfg.get("shrink_budget", 300))
-        except Exception as e:
-            harness_errors.append("minimise/replay failed for %s: %r" % (vclass, e))
+        path = ok = res = None
+        last_err = None
+        cands = classes[vclass][:1]
+        if len(classes[vclass]) > 1:
+            # a violation that only exists through state leaked between runs of one worker cannot be replayed: look for
+            # an instance of the class that reproduces when its scenario is executed on its own
+            for v in classes[vclass][:40]:
+                try:
+                    r0 = runner.execute_isolated(engine, v["scenario"])
+                except Exception:
+                    continue
+                if r0.verdict == "VIOLATION" and r0.vclass == vclass:
+                    cands = [v]
+                    break
+        for v in cands:
+            try:
+                path, ok, res = minimise_and_write(engine, v, known_entries, tiercfg.get("shrink_budget", 300))
+                last_err = None
+                break
+            except Exception as e:
+                last_err = e
+        if last_err is not None:
+            harness_errors.append("minimise/replay failed for %s: %r" % (vclass, last_err))
             continue
         if not ok:
             harness_errors.append("replay of %s did not reproduce class+digest (harness nondeterminism)" % path)
